@@ -15,7 +15,8 @@ import (
 //
 // Worlds: the 25 DAG shapes on 3 files (edge kinds rotating) x assignment of the files to <=2 modules x package pattern
 // (every file: own package / the shared package / no package statement: 27 patterns) x decoration; selections: every
-// file x include_package_files in {false, true}. API on all worlds, CLI on every fourth.
+// file x include_package_files in {false, true}. API on all worlds, CLI on every fourth. (Quick: every pattern x 4 of the
+// 8 assignments, shape rotating; thorough: every shape x every pattern x 2 assignments.)
 
 // decorations without the descriptor.proto variant (compiling descriptor.proto from source is 3/4 of the cost of a world)
 var protoFileDecors = []int{1, 2, 8, 11}
@@ -51,10 +52,12 @@ func (rn *runner) protoFileSpecs(quick bool) []*Spec {
 	}
 	var specs []*Spec
 	if quick {
-		// every package pattern x every assignment; the graph shape rotates (each of the 25 shapes occurs 8 or 9 times)
+		// every package pattern x 4 of the 8 assignments (one single-module layout and three splits, alternating between
+		// the two halves with the pattern); the graph shape rotates (each of the 25 shapes occurs 4 or 5 times)
 		for pp := 0; pp < 27; pp++ {
-			for a := range mods {
-				specs = append(specs, mk((pp*len(mods)+a)%len(shapes), a, pp))
+			for k := 0; k < 4; k++ {
+				a := (pp + 2*k) % len(mods)
+				specs = append(specs, mk((pp*4+k)%len(shapes), a, pp))
 			}
 		}
 		return specs
